@@ -358,4 +358,10 @@ def rule_manager(ctx):
     ctx.ob("C10.MGR", lk if lk is not None else ac, "AvailableConnections.locked() <=> value == 0", ok, "locked() is no longer `value == 0`", construct="AvailableConnections.locked")
 
 
-RULES = [rule_who, rule_finally, rule_pair, rule_manager]
+def rule_timeout_ends(ctx):
+    from .c16 import rule_end
+    ctx.rule("C10.TIMEOUT", "a session whose peer stalls is ended by the timeout (and so gives its slots back): the dispatcher does not swallow TimeoutError (shared with C16.END)")
+    ctx.borrow(rule_end, {"C16.END": "C10.TIMEOUT"})
+
+
+RULES = [rule_who, rule_finally, rule_pair, rule_manager, rule_timeout_ends]
